@@ -833,6 +833,103 @@ fn wrap_program(src: &str, mode: usize) -> (Vec<(String, String)>, &'static str)
     }
 }
 
+/// composition under every capture state: includes and imports of templates that bring capture state
+/// of their own (a template that extends opens a discarding capture for its own top level) must leave
+/// the capture stack of whoever includes them exactly as they found it, whatever that stack holds at
+/// the time: nothing, a set / filter / macro / call capture, the discarding capture of an extending
+/// host, or several of these.  Exact expected output for every (host, callee) pair.
+fn compose_capture_family(acc: &Acc, only: Option<(&str, &str)>) {
+    // callees: (name, tag, what it renders)
+    let callees: [(&str, &str, &str); 9] = [
+        ("include_plain", "{% include 'plain' %}", "<p1>"),
+        ("include_extending", "{% include 'part' %}", "<pb:P1>"),
+        ("include_extending_two_levels", "{% include 'part2' %}", "<pb:QP1>"),
+        ("include_extending_twice", "{% include 'part' %}{% include 'part' %}", "<pb:P1><pb:P1>"),
+        ("include_of_includer", "{% include 'relay' %}", "r<pb:P1>r"),
+        ("import_extending_module", "{% import 'elib' as el %}{{ el.m() }}", "M"),
+        ("from_import_extending_module", "{% from 'elib' import m %}{{ m() }}", "M"),
+        ("include_missing_ignored", "{% include 'nope' ignore missing %}", ""),
+        ("include_choice_of_extending", "{% include ['nope', 'part'] %}", "<pb:P1>"),
+    ];
+    // hosts: (name, main template with TAG, other templates, expected with OUT; `^` marks text that a
+    // filter upper-cases)
+    let hosts: [(&str, &str, &[(&str, &str)], &str); 14] = [
+        ("live", "a|TAG|b|z", &[], "a|OUT|b|z"),
+        ("set_block", "{% set c %}a|TAG|b{% endset %}[{{ c }}]z", &[], "[a|OUT|b]z"),
+        ("filter_block", "{% filter upper %}a|TAG|b{% endfilter %}z", &[], "^a|OUT|b^z"),
+        ("macro_body", "{% macro h() %}a|TAG|b{% endmacro %}<{{ h() }}>z", &[], "<a|OUT|b>z"),
+        ("call_body", "{% macro w() %}[{{ caller() }}]{% endmacro %}{% call w() %}a|TAG|b{% endcall %}z", &[], "[a|OUT|b]z"),
+        ("loop_body", "{% for i in [1, 2] %}a|TAG|b{% endfor %}z", &[], "a|OUT|ba|OUT|bz"),
+        ("set_in_filter", "{% filter upper %}{% set c %}a|TAG|b{% endset %}[{{ c }}]{% endfilter %}z", &[], "^[a|OUT|b]^z"),
+        ("child_block", "{% extends 'hbase' %}{% block hb %}a|TAG|b{% endblock %}", &[("hbase", "H[{% block hb %}{% endblock %}]z")], "H[a|OUT|b]z"),
+        ("child_top_level", "{% extends 'hbase' %}x|TAG|y{% block hb %}c{% endblock %}", &[("hbase", "H[{% block hb %}{% endblock %}]z")], "H[c]z"),
+        ("child_top_level_before_extends", "x|TAG|y{% extends 'hbase' %}w{% block hb %}c{% endblock %}", &[("hbase", "H[{% block hb %}{% endblock %}]z")], "x|OUT|yH[c]z"),
+        ("child_top_level_and_block", "{% extends 'hbase' %}x|TAG|y{% block hb %}a|TAG|b{% endblock %}u|TAG|v", &[("hbase", "H[{% block hb %}{% endblock %}]z")], "H[a|OUT|b]z"),
+        ("child_top_level_set", "{% extends 'hbase' %}{% set c %}a|TAG|b{% endset %}{% block hb %}[{{ c }}]{% endblock %}", &[("hbase", "H[{% block hb %}{% endblock %}]z")], "H[[a|OUT|b]]z"),
+        ("included_host", "s|{% include 'hostpart' %}|e", &[("hostpart", "a|TAG|b")], "s|a|OUT|b|e"),
+        ("included_extending_host_top_level", "s|{% include 'hostchild' %}|e", &[("hostchild", "{% extends 'hbase' %}x|TAG|y{% block hb %}a|TAG|b{% endblock %}"), ("hbase", "H[{% block hb %}{% endblock %}]z")], "s|H[a|OUT|b]z|e"),
+    ];
+    let common: [(&str, &str); 6] = [
+        ("plain", "<p{{ v }}>"),
+        ("pbase", "<pb:{% block q %}d{% endblock %}>"),
+        ("part", "{% extends 'pbase' %}junk{% block q %}P{{ v }}{% endblock %}junk2"),
+        ("part2", "{% extends 'part' %}more{% block q %}Q{{ super() }}{% endblock %}"),
+        ("relay", "r{% include 'part' %}r"),
+        ("elib", "{% extends 'pbase' %}{% macro m() %}M{% endmacro %}text"),
+    ];
+    for (hname, hsrc, hextra, hexpect) in hosts {
+        for (cname, tag, out) in callees {
+            if let Some((h, c)) = only {
+                if h != hname || c != cname {
+                    continue;
+                }
+            }
+            acc.eval(1);
+            let mut templates: Vec<(String, String)> = common.iter().map(|(a, b)| (a.to_string(), b.to_string())).collect();
+            for (a, b) in hextra {
+                templates.push((a.to_string(), b.replace("TAG", tag)));
+            }
+            templates.push(("main".to_string(), hsrc.replace("TAG", tag)));
+            // expected: OUT substituted; text between ^ markers upper-cased
+            let sub = hexpect.replace("OUT", out);
+            let mut expect = String::new();
+            for (i, piece) in sub.split('^').enumerate() {
+                if i % 2 == 1 {
+                    expect.push_str(&piece.to_uppercase());
+                } else {
+                    expect.push_str(piece);
+                }
+            }
+            let got = catch(|| {
+                let mut env = Environment::new();
+                for (n, s) in &templates {
+                    env.add_template_owned(n.clone(), s.clone()).map_err(|e| e.to_string())?;
+                }
+                let t = env.get_template("main").map_err(|e| e.to_string())?;
+                let first = t.render(minijinja::context! { v => 1 }).map_err(|e| e.to_string())?;
+                // a second render of the same template on the same environment (loaded-template state)
+                let second = t.render(minijinja::context! { v => 1 }).map_err(|e| e.to_string())?;
+                if first != second {
+                    return Err(format!("first render {:?}, second render {:?}", first, second));
+                }
+                Ok(first)
+            });
+            match got {
+                Ok(Ok(s)) if s == expect => {
+                    acc.outcome("composition leaves the host's capture state as found");
+                    acc.nontrivial(fnv(format!("cc:{}:{}", hname, cname).as_bytes()));
+                }
+                other => acc.fail(Failure {
+                    key: format!("capture after_composition host={} callee={}", hname, cname),
+                    case: format!("{} / {}", hname, cname),
+                    detail: format!("main = {:?}: got {:?}, expected {:?}", hsrc.replace("TAG", tag), other, expect),
+                    replay: json!({"kind": "compose_capture", "host": hname, "callee": cname}),
+                }),
+            }
+        }
+    }
+}
+
 pub fn main(args: Args) -> i32 {
     let start_t = std::time::Instant::now();
     install_quiet_panic_hook();
@@ -840,6 +937,17 @@ pub fn main(args: Args) -> i32 {
     if let Some(p) = &args.replay {
         let doc = load_replay(p);
         let j = &doc["replay"];
+        if j["kind"] == "compose_capture" {
+            compose_capture_family(&acc, Some((j["host"].as_str().unwrap(), j["callee"].as_str().unwrap())));
+            let fs = acc.take_failures();
+            for f in &fs {
+                println!("VIOLATION property=C05 replay={}  # {} :: {}", p, f.key, f.detail);
+            }
+            if fs.is_empty() {
+                println!("replay: case passes");
+            }
+            return if fs.is_empty() { 0 } else { 1 };
+        }
         if j["kind"] == "scope_contents" {
             let src = j["source"].as_str().unwrap();
             let out = Environment::new().render_str(src, ()).map_err(|e| e.to_string());
@@ -1147,6 +1255,8 @@ pub fn main(args: Args) -> i32 {
             }
         });
     }
+    compose_capture_family(&acc, None);
+    acc.count("compose_capture_programs", 14 * 9);
     let machinery = acc.n_failures() > 0 && {
         // conformance failures are machinery errors: report them but never as a verdict
         false
